@@ -9,6 +9,7 @@ import (
 	"encoding/json"
 	"fmt"
 	"os"
+	"sync"
 
 	"github.com/ddddddO/gtree"
 	"github.com/fatih/color"
@@ -23,6 +24,9 @@ type wcase struct {
 	// Poison > 0: before the judged call, make the same call with a writer that fails at write
 	// index Poison-1 and ignore its result (state left behind by a failed call)
 	Poison int `json:"poison,omitempty"`
+	// Par > 1: the judged call is made Par times at the same moment from Par goroutines; all of
+	// them must give the same bytes (independent calls do not disturb each other)
+	Par int `json:"par,omitempty"`
 }
 
 type failingWriter struct{ n, failAt int }
@@ -87,6 +91,43 @@ func main() {
 			continue
 		}
 		r := run(&c)
+		if c.Par > 1 {
+			c.Poison = 0
+			// every goroutine renders ITS OWN document (the judged one plus one extra root), first
+			// alone, then 25 times while the others do the same
+			bad := make([]int, c.Par)
+			docs := make([]wcase, c.Par)
+			alone := make([]wres, c.Par)
+			for i := range docs {
+				docs[i] = c
+				docs[i].Doc = append(append([]byte(nil), c.Doc...), []byte(fmt.Sprintf("\n- zz-concurrent-%d\n  - kid\n", i))...)
+				alone[i] = run(&docs[i])
+			}
+			var wg sync.WaitGroup
+			start := make(chan struct{})
+			for i := range bad {
+				wg.Add(1)
+				go func(i int) {
+					defer wg.Done()
+					<-start
+					for k := 0; k < 25; k++ {
+						cc := docs[i]
+						x := run(&cc)
+						if x.Err != alone[i].Err || x.Panic != alone[i].Panic || !bytes.Equal(x.Out, alone[i].Out) {
+							bad[i]++
+						}
+					}
+				}(i)
+			}
+			close(start)
+			wg.Wait()
+			for i := range bad {
+				if bad[i] > 0 {
+					r.Panic = fmt.Sprintf("%d of 25 calls made concurrently (goroutine %d of %d) differ from the same call made alone", bad[i], i+1, c.Par)
+					break
+				}
+			}
+		}
 		b, _ := json.Marshal(r)
 		out.Write(b)
 		out.WriteByte('\n')
